@@ -111,6 +111,9 @@ def check_scale(case) -> Outcome:
     if y.shape != exp.shape:
         out.fail("scale-shape", f"{which}({kw}) on {case['x']}: result shape {y.shape} for input shape {exp.shape}", **feat)
         return out
+    if not np.all(np.isfinite(y)):
+        out.fail("scale-values", f"{which}({kw}) on {case['x']}: non-finite results {y[~np.isfinite(y)][:3].tolist()} for finite data with non-zero spread", **feat)
+        return out
     if not np.allclose(y, exp, rtol=1e-9, atol=tol * (spread / sval)):
         out.fail("scale-values", f"{which}({kw}) on {case['x']}: max abs err {np.abs(y - exp).max()} (spread {spread})", **feat)
     if cen is True:
